@@ -142,8 +142,9 @@ def c09_r3(ctx):
     qbase = prog.cls("query.qcore.Query")
 
     def classify(func, call, res, concrete):
+        al_ = norm.aliases(func.node)
         for a in list(call.args) + [k.value for k in call.keywords]:
-            t = norm.canon(a)
+            t = norm.canon(a, al_)
             if t == "self.boost" or t.endswith("* self.boost)") or t.startswith("(self.boost *"):
                 return "apply_boost"
         return None
@@ -162,7 +163,7 @@ def c09_r3(ctx):
     def edge_event(func, node, label):
         if node.kind != "test":
             return None
-        t = norm.canon(node.ast)
+        t = norm.canon(node.ast, norm.aliases(func.node))
         if t in ("(1.0 != self.boost)", "(1 != self.boost)", "(self.boost != 1.0)", "(self.boost != 1)"):
             return "boost_one" if label[0] == "F" else None
         if t in ("(1.0 == self.boost)", "(1 == self.boost)", "(self.boost == 1.0)", "(self.boost == 1)"):
